@@ -728,8 +728,12 @@ def random(expression: exp.Expression) -> exp.Expression:
         # (not max BIGINT (int64) because we don't have enough floating point precision to distinguish seeds)
         # then attach to SELECT as the seed arg
         # (we can't attach it to exp.Rand because it will be rendered in the sql)
-        if rand.this and isinstance(rand.this, exp.Literal):
-            expression.args["seed"] = f"{rand.this}/2147483647-0.5"
+        seed = rand.this
+        if isinstance(seed, exp.Neg) and isinstance(seed.this, exp.Literal):
+            # a negative seed parses as the negation of a literal; it maps below the range used by positive seeds
+            expression.args["seed"] = f"(-{seed.this})/4294967294-0.5"
+        elif seed and isinstance(seed, exp.Literal):
+            expression.args["seed"] = f"{seed}/2147483647-0.5"
 
     return expression
 
